@@ -22,13 +22,14 @@ Next == UNCHANGED a
 
 ThCodes == {0, 64, 99}
 ObsSpace(c) ==
-  {Obs(th, err, ret, n, nul, unt) :
-     th  \in IF c.exc = 1 /\ c.ep \notin CIntEPs \cup CPtrEPs THEN ThCodes ELSE {0},
-     err \in IF c.ep \in ObjEPs \cup EcEPs THEN {0, 1, 66} ELSE {-1},
+  {Obs(th, err, ret, n, nul, unt, cr) :
+     th  \in IF c.exc = 1 /\ c.ep \notin CEPs THEN ThCodes ELSE {0},
+     err \in IF c.ep \in ErrChanEPs THEN {0, 1, 66} ELSE {-1},
      ret \in IF c.ep \in CIntEPs THEN {-4, -1, 0} ELSE {0},
      n   \in 0..1,
      nul \in IF c.ep \in CPtrEPs THEN {0, 1} ELSE {0},
-     unt \in IF c.ep \in CIntEPs THEN {0, 1} ELSE {0}}
+     unt \in IF c.ep \in CIntEPs THEN {0, 1} ELSE {0},
+     cr  \in {0, 1}}
 
 Req == Required(a)
 NeverSilent == Inv(a) # {} => \A o \in ObsSpace(a) : Exhibits(Req, o, 1, 99) => Reported(a, o)
@@ -36,7 +37,7 @@ ValidNormal == Inv(a) = {} => /\ Req = "normal"
                               /\ \A o \in ObsSpace(a) : Exhibits(Req, o, 1, 99) => ~Reported(a, o)
 Satisfiable == \E o \in ObsSpace(a) : Exhibits(Req, o, 1, 99)
 Exclusive   == Inv(a) # {} => \A o \in ObsSpace(a) : ~(Exhibits(Req, o, 1, 99) /\ Exhibits("normal", o, 1, 99))
-CBoundary   == a.ep \in CIntEPs \cup CPtrEPs =>
+CBoundary   == a.ep \in CEPs =>
                  /\ LET other == [a EXCEPT !.exc = 1 - a.exc] IN Required(other) = Req
                  /\ (a.ep \in CIntEPs => (Req = "negative") = (~ClipTypeOK(a.ct) \/ ~FillRuleOK(a.fr) \/ (a.ep \in CIntDEPs /\ ~PrecOK(a.p))))
                  /\ (a.ep \in CPtrEPs => (Req = "null") = ~PrecOK(a.p))
@@ -45,7 +46,7 @@ Statement ==
   /\ (ScalesToInt(a.ep) /\ a.mag = "beyond") => Req # "normal"                  \* coordinates that would leave the integer range after scaling
   /\ (TakesScale(a.ep) /\ a.zs) => Req # "normal"                               \* a zero scale
   /\ (TakesCount(a.ep) /\ a.odd) => Req # "normal"                              \* an odd number of coordinates
-  /\ (a.exc = 1 /\ a.ep \notin CIntEPs \cup CPtrEPs /\ Req # "normal") => Req = "exception"
-  /\ (a.exc = 0 /\ a.ep \notin CIntEPs \cup CPtrEPs /\ Req # "normal") => Req \in {"errcode", "empty"}
+  /\ (a.exc = 1 /\ a.ep \notin CEPs /\ Req # "normal") => Req = "exception"
+  /\ (a.exc = 0 /\ a.ep \notin CEPs /\ Req # "normal") => Req \in {"errcode", "empty"}
 TypeOK == Req \in Outcomes /\ a.ep \in AllEPs
 =============================================================================
